@@ -24,7 +24,7 @@ pub fn history_rules(prog: &Program, trace: &[Ev]) -> Vec<Verdict>
                 if m.starts_with("C10") { push(&mut out, "C10", "h-other-world-affected", &["C11"], pos, m.clone()); }
                 else { push(&mut out, "C01", "h-other-world-affected", &["C11"], pos, m.clone()); }
             }
-            Ev::Panic(m) => push(&mut out, "C18", "h-panic", &["C02", "C03", "C07", "C10", "C11", "C12"], pos, format!("panic: {m}")),
+            Ev::Panic(m) => push(&mut out, "C18", "h-panic", &["C01", "C02", "C03", "C04", "C05", "C06", "C07", "C08", "C09", "C10", "C11", "C12", "C13", "C14", "C15", "C16", "C17"], pos, format!("panic: {m}")),
             Ev::Probe { uid, s } if !s.is_empty() => push(&mut out, "C04", "h-probe-saw-data", &[], pos, format!("probe {uid:#x} observed {s:?}")),
             Ev::Body { inst, n, cap, s, chg } =>
             {
